@@ -91,9 +91,9 @@ def histInstJson (i : Inst) : Json :=
       | some (n, c, fs) => Json.mkObj [("name", jstr n), ("cls", jstr c), ("fields", histKV fs)])]
 
 def histOutJson : Out → Json
-  | .ok insts subs cfg extras => Json.mkObj [("o", "ok"), ("insts", Json.arr (insts.map histInstJson).toArray),
+  | .ok insts subs cfg extras other => Json.mkObj [("o", "ok"), ("insts", Json.arr (insts.map histInstJson).toArray),
       ("subgroups", histKV subs), ("cfg", match cfg with | some v => eValJson v | none => .null),
-      ("extras", jstrs extras)]
+      ("extras", jstrs extras), ("other", histKV other)]
   | .exit c k => Json.mkObj [("o", "exit"), ("code", Json.num (JsonNumber.fromNat c)), ("kind", exitKindStr k)]
   | .raise e => Json.mkObj [("o", "raise"), ("exc", jstr e)]
   | .unit => Json.mkObj [("o", "unit")]
